@@ -56,8 +56,9 @@ def gen_tmd(rng, category=None):
         extra['issuer'] = bytes(rng.choice(b'Root-CA0123456789abcdefXS') for _ in range(rng.randrange(1, 0x40)))
     sig = rng.choice(SIGS)
     extra['sig_padding'] = bytes(0x40 if sig in (0x10002, 0x10005) else 0x3C)
-    raw = P.build_tmd(tid, ch, sig_type=sig, title_version=rng.getrandbits(16), save_size=rng.getrandbits(32),
-                      srl_save_size=rng.getrandbits(32), extra=extra)
+    kw = dict(sig_type=sig, title_version=rng.getrandbits(16), save_size=rng.getrandbits(32), srl_save_size=rng.getrandbits(32), extra=extra)
+    raw = P.build_tmd(tid, ch, **kw)
+    gen_tmd.last_kwargs = kw
     return raw, ch, tid, sig
 
 
@@ -216,6 +217,25 @@ def run_case(ctx, mr, case):
             ctx.diff('oracle', 'tmd-object-roundtrip', case, 'equal object', 'different', 'load(bytes(t)) != t')
     except Exception as ex:
         ctx.diff('oracle', 'tmd-object-roundtrip', case, 'loads', pyenv.errname(ex), 're-loading serialised TMD raised')
+    if rng.random() < 0.3:
+        # the object is mutable: records assigned after a first serialisation are what the next serialisation holds
+        kw = dict(gen_tmd.last_kwargs)
+        kw['extra'] = {k: v for k, v in kw['extra'].items() if k != 'info_split'}
+        n2 = rng.randrange(0, 6)
+        ch2 = [{'id': rng.getrandbits(32), 'index': j, 'type': rng.choice([0, 1, 0x4000]), 'size': rng.getrandbits(30), 'hash': pyenv.rbytes(rng, 32)} for j in range(n2)]
+        raw2 = P.build_tmd(tid, ch2, **kw)
+        try:
+            t1 = TitleMetadataReader.load(io.BytesIO(raw))
+            first = bytes(t1)
+            t2 = TitleMetadataReader.load(io.BytesIO(raw2))
+            t1.info_records, t1.chunk_records, t1.content_count = t2.info_records, t2.chunk_records, t2.content_count
+            second = bytes(t1)
+        except Exception as ex:
+            first, second = raw, pyenv.errname(ex)
+        ctx.stat('reassigned_records')
+        if first != raw or second != raw2:
+            ctx.diff('oracle', 'tmd-bytes-after-assignment', dict(case, chunks2=n2), 'the serialisation of the records assigned', 'something else',
+                     'bytes(tmd) after info_records / chunk_records were assigned does not hold the assigned records (a stale info block or hash?)')
     if t.title_id != '%016x' % tid or len(t.chunk_records) != len(ch):
         ctx.diff('oracle', 'tmd-fields', case, '%016x' % tid, t.title_id, 'title id / record count differ from what was packed')
     # 2. tamper sweep: flips in the info block and in covered chunk records
